@@ -106,6 +106,9 @@ func genTopics(ch *Chooser, label string) []string {
 			out = append(out, t)
 		}
 	}
+	if ch.Chance(1, 12, label+" duplicate topic") {
+		out = append(out, out[0]) // the same topic listed twice is still one match
+	}
 	return out
 }
 
